@@ -6,6 +6,7 @@ INVARIANT Blocks
 INVARIANT RoundTrip
 INVARIANT Gate
 INVARIANT Kept
+INVARIANT ThumbKept
 INVARIANT LazyUnobservable
 INVARIANT Untouched
 VIEW View
@@ -15,11 +16,12 @@ CONSTANTS
   FrameCounts = {1}
   Layers = {"d1", "cube"}
   Minors = {5}
-  Fmts = {"RGBA8888", "BGRA4444", "IA88"}
-  Lows = {"NONE"}
+  Fmts = {"RGBA8888", "BGRA4444"}
+  Lows = {"NONE", "BGRA8888"}
   ResKinds = {}
   MaxRes = 0
   Access = FALSE
   Fills = {"l0"}
   History = TRUE
   MaxOps = 2
+  Thumbs = {"t16", "t4"}
